@@ -175,7 +175,7 @@ OPS.append(dict(name="where", ar=3, grp="minmax", dom=("any0", "any", "any"), re
 AV = [(("f4",), U_FULL), (("f8",), U_A)]
 
 
-def A(name, grp, ref, cls="tol", variants=None, call=None, sf=None, params=None, dom="any"):
+def A(name, grp, ref, cls="tol", variants=None, call=None, sf=None, params=None, dom="act"):
     U(name, grp, dom, ref, cls, variants or AV, call=call or "view::%s(a)" % name, sf=sf or "view::fun::%s{}" % name,
       hdr="nmtools/array/view/activations/%s.hpp" % name.replace("_p", ""), w="float", prefix="act", params=params)
 
